@@ -33,6 +33,8 @@ type c12Op struct {
 type c12Input struct {
 	Cfg []c12Env `json:"cfg"`
 	Ops []c12Op  `json:"ops"`
+	// collector-level scenario around the real reloadConfigs (see c12_coll.go)
+	Reload *c12Reload `json:"reload,omitempty"`
 }
 
 func init() {
@@ -88,6 +90,11 @@ func c12GenCfg(r *rand.Rand) []c12Env {
 }
 
 func c12Gen(r *rand.Rand, tier string, i int) any {
+	if i%6 == 2 {
+		n := 2 + r.Intn(3)
+		return c12Input{Cfg: []c12Env{{Name: "__default__", Kind: "det"}},
+			Reload: &c12Reload{Workers: n, Actor: r.Intn(n), Def: sampBaseDef(r, 3+r.Intn(5))}}
+	}
 	in := c12Input{Cfg: c12GenCfg(r)}
 	nw := 1 + r.Intn(4)
 	nops := 4 + r.Intn(10)
@@ -345,7 +352,22 @@ func c12Run(raw json.RawMessage) (Case, error) {
 			tags = append(tags, "env-named-like-downstream-prefix")
 		}
 	}
-	coq := fmt.Sprintf("(Build_case %s %s %s)", cfg0, cq.List(ops), cq.List(obs))
+	reloadCoq := "None"
+	if in.Reload != nil {
+		rc, rh, err := c12RunReload(*in.Reload)
+		if err != nil {
+			return Case{}, err
+		}
+		reloadCoq = rc
+		human = append(human, rh...)
+		tags = append(tags, "collector-reload-scenario")
+		shared = true
+		gets += 2
+		for len(ids) < 2 { // the scenario always involves two generations of instances
+			ids[len(ids)] = uint64(len(ids))
+		}
+	}
+	coq := fmt.Sprintf("(Build_case %s %s %s %s)", cfg0, cq.List(ops), cq.List(obs), reloadCoq)
 	b, _ := json.Marshal(in)
 	return Case{Coq: coq, Key: string(b), Nontriv: shared && gets >= 2 && len(ids) >= 2, Tags: sampDedupTags(tags),
 		Summary: map[string]any{"rules": in.Cfg, "history": human}}, nil
